@@ -103,7 +103,7 @@ Proof.
     all: apply in_closers in Hi; destruct Hi as [p [Hp ->]]; unfold thrT; cbn; repeat split; intros; discriminate.
 Qed.
 
-Lemma invT_init progs : invT (init progs).
+Lemma invT_init g progs : invT (init_g g progs).
 Proof.
   split.
   - intros e st H. unfold ent in H. cbn in H. destruct e; discriminate.
@@ -111,7 +111,7 @@ Proof.
     unfold thrT; cbn; repeat split; intros; discriminate.
 Qed.
 
-Lemma invE_init progs : invE (init progs).
+Lemma invE_init g progs : invE (init_g g progs).
 Proof. split; intros k e H; cbn in H; discriminate. Qed.
 
 Lemma invET_reach progs s : reach progs s -> invE s /\ invT s.
@@ -119,7 +119,7 @@ Proof.
   intro Hr.
   assert (G : invB s /\ (invC s /\ invD s) /\ invE s /\ invT s).
   { revert s Hr. apply (reach_ind progs (fun s => invB s /\ (invC s /\ invD s) /\ invE s /\ invT s)).
-    - split; [apply invB_init|]. split; [split; [apply invC_init|apply invD_init]|]. split; [apply invE_init|apply invT_init].
+    - intro g. split; [apply invB_init|]. split; [split; [apply invC_init|apply invD_init]|]. split; [apply invE_init|apply invT_init].
     - intros s0 t c s1 [IB [[IC ID] [IE IT]]] H.
       assert (R0 : invB s1 /\ invC s1 /\ invD s1).
       { pose proof H as H'. apply step_inv in H'. destruct H' as [th [l [Ht Hs]]].
